@@ -10,8 +10,14 @@ LEVEL_TEXT = "partial"
 LEVEL_NOTE = ("proof for the three modelled readers (single Newick via the C01 model, the multi-Newick splitter + reader loop, "
               "the Nexus lexer/parser) and for the structural clade conversions; PhyloXML / Nextstrain text decoding is "
               "encoding/xml / encoding/json (trusted, observed only); stack and heap exhaustion under huge nesting is observed "
-              "only (thorough tier)")
-RULE = ("cases = (format, bytes) for the five formats newick | multi (multi-Newick stream) | nexus | phyloxml | nextstrain. "
+              "only (thorough tier); the channel hand-off of ReadMultiTrees (buffer of 10, send* then close, draining or "
+              "stop-at-first-error consumer) is a small-step model (Model/C02Extra8.v) proved deadlock-free and delivering under "
+              "every fair schedule when an error record is sent last, tied to the real goroutine by the case family chan "
+              "(records received / waiting in the buffer / left behind)")
+RULE = ("family chan: ((fmt chan) (src multi|phyloxml) (text) (policy drain|stop)): utils.ReadMultiTrees on a stream of 0..40 "
+        "records with chosen error positions, consumer policy drain / return at the first error; compared with the channel model: "
+        "number of records received, len(channel) once stable, records left (buffer + held by the goroutine).  Other "
+        "cases = (format, bytes) for the five formats newick | multi (multi-Newick stream) | nexus | phyloxml | nextstrain. "
         "Valid documents are generated from random trees (2..12 tips, lengths/supports/inner names/comments; numbers dyadic or, for "
         "10% of the trees, full-precision binary64 values with 16-17 significant digits): Newick text; "
         "multi-Newick streams with 1..6 trees laid out one per line, over several lines, several per line, with blank and "
@@ -896,6 +902,36 @@ FIXED = [
     ("nextstrain", "{\"version\":\"v2\",\"tree\":{\"name\":\"r\",\"children\":[{\"name\":\"a\",\"node_attrs\":{\"div\":-1}},{\"name\":\"b\",\"node_attrs\":{\"div\":0}}]}}"),
 ]
 
+# family "chan": the channel hand-off of utils.ReadMultiTrees (buffer of 10) against Model/C02Extra8.v.
+# flags = which record carries an error (PhyloXML: a phylogeny with an unnamed tip; every phylogeny gets its own
+# record; Newick stream: the reader stops at the first bad tree); policy = the consumer drains / returns at the first error
+def chan_text(src, flags):
+    if src == "phyloxml":
+        s = "<phyloxml>\n"
+        for i, bad in enumerate(flags):
+            s += '<phylogeny rooted="true"><clade><clade>%s</clade><clade><name>b%d</name></clade></clade></phylogeny>\n' % (
+                "" if bad else "<name>a%d</name>" % i, i)
+        return s + "</phyloxml>\n"
+    return "".join("(a%d,(b,c);\n" % i if bad else "(a%d,(b,c));\n" % i for i, bad in enumerate(flags))
+
+def chan_cases(rng, tier):
+    out = []
+    fixed = [[True] + [False] * 11, [True] + [False] * 10, [True] + [False] * 9, [False] * 25 + [True], [False] * 12, [],
+             [True], [False, True] + [False] * 15, [False] * 11 + [True, True] + [False] * 12]
+    rnd = []
+    for _ in range({"quick": 30, "thorough": 600, "search": 10}[tier]):
+        n = rng.choice([0, 1, 2, 5, 9, 10, 11, 12, 13, 20, 21, 22, 23, 30, 40])
+        pe = rng.choice([0.0, 0.05, 0.3])
+        fl = [rng.random() < pe for _ in range(n)]
+        if n and rng.random() < 0.4:
+            fl[rng.randrange(n)] = True
+        rnd.append(fl)
+    for fl in fixed + rnd:
+        for src in ["phyloxml", "multi"]:
+            for pol in ["drain", "stop"]:
+                out.append(case("chan", chan_text(src, fl), "chan:%s:%s" % (src, pol), src=Sym(src), policy=Sym(pol)))
+    return out
+
 def case(fmt, data, kind, **kw):
     d = b(data)
     o = {"fmt": Sym(fmt), "text": d}
@@ -950,7 +986,7 @@ def gen(rng, tier):
     for j, bc in enumerate(bigs):
         out.insert(min(len(out), j * 200 + 7), bc)
     # spread over the chunks: a worker that dies on one of them is restarted by the runner for the cases that follow
-    hs = huge_cases(rng, tier) + anomaly_cases(rng, tier) + nexus_blocks_cases(rng, tier)
+    hs = huge_cases(rng, tier) + anomaly_cases(rng, tier) + nexus_blocks_cases(rng, tier) + chan_cases(rng, tier)
     step = max(1, len(out) // max(1, len(hs)))
     for j, hc in enumerate(hs):
         out.insert(min(len(out), j * (step + 1) + 3), hc)
